@@ -65,6 +65,7 @@ type c16 struct {
 	rec        *sim.Rec
 	conns      []*mConn
 	peers      []*tcpPeer
+	strangers  int
 }
 
 func (x *c16) liveConn(pred func(c *mConn) bool) *mConn {
@@ -211,6 +212,44 @@ func (x *c16) opConnectRefused(c *sim.RawClient) {
 	}
 	if x.w.Gen.CallCount("conn") != before {
 		x.rec.Violate("connect-accepted-denied", "dialed", "the server opened a connection toward refused peer %s", l.TCPAddr())
+	}
+}
+
+// opConnectWithoutAllocation: the same user, on a second control connection that holds no
+// allocation, sends Connect: that 5-tuple has nothing to connect from - no success, no dial, and
+// the first connection's allocation is none the wiser (its own Connect to that peer still works).
+func (x *c16) opConnectWithoutAllocation(owner *sim.RawClient) {
+	a, st := x.m.Alloc(owner)
+	if a == nil || st != sim.Live {
+		return
+	}
+	x.strangers++
+	second, err := x.w.NewTCPClient(fmt.Sprintf("second-%d", x.strangers), net.IPv4(10, 1, 2, byte(x.strangers%250+1)).To4(), 6500+x.strangers, 0, owner.User)
+	if err != nil {
+		return
+	}
+	defer func() { second.Close(); x.w.Settle(); x.m.ClientClosed(second) }()
+	var p *tcpPeer
+	for _, q := range x.peers {
+		if q.l != nil {
+			p = q
+		}
+	}
+	if p == nil {
+		return
+	}
+	before := x.w.Gen.CallCount("conn")
+	resp := x.m.Connect(second, p.addr)
+	code := codeOfMsg(resp)
+	x.rec.FP("connect/no-allocation/%d", code)
+	if code == 0 {
+		x.rec.Violate("connect-unexpected", "success-without-allocation", "Connect on a control connection that holds no allocation (same user as %s) answered success", owner.Name)
+	}
+	if x.w.Gen.CallCount("conn") != before {
+		x.rec.Violate("connect-unexpected", "dialed-without-allocation", "the server opened a peer connection for a Connect that arrived on a 5-tuple without allocation")
+	}
+	if pe := x.acceptAt(p); pe != nil {
+		_ = pe.Close()
 	}
 }
 
@@ -731,8 +770,10 @@ func runC16(t *testing.T, rng *rand.Rand, rec *sim.Rec, tier string, caseNo int)
 		}
 		switch rng.Intn(12) {
 		case 0, 1, 2:
-			if rng.Intn(5) == 0 {
+			if r := rng.Intn(10); r < 2 {
 				x.opConnectRefused(c)
+			} else if r == 2 {
+				x.opConnectWithoutAllocation(c)
 			} else {
 				x.opConnect(c)
 			}
